@@ -716,6 +716,11 @@ def _hdr_tags(p):
 # the degenerate variants of vcheck.vary (exact zeros, one dominant tone) make the boundary-order / long-order normal equations of funcx
 # singular to working precision; funcx keeps the amplitude and stride variants
 NO_DEGEN = {"funcx", "hdrar"}
+# zero-inserted records give the forward-backward data matrix of MUSIC / EV singular values in exactly equal PAIRS: a signal dimension
+# that cuts a pair leaves the subspace undetermined (any rotation inside the pair), so the pseudo-spectrum of x and of c*x are two
+# arbitrary members of a family - not an input on which the clause can be evaluated (thorough tier, seed 0, raised it).  The exact-zero
+# reflection coefficients this variant is meant for are covered by C13 / C16 (kind zerok).
+NO_DEGEN_TYPES = {"zstuff"}
 
 
 def _data(nrng, N, cplx):
